@@ -7,7 +7,6 @@ package mastership
 import (
 	"context"
 	configapi "github.com/onosproject/onos-api/go/onos/config/v2"
-	"github.com/onosproject/onos-config/pkg/controller/utils"
 	"github.com/onosproject/onos-config/pkg/store/v2/configuration"
 	"math/rand"
 	"time"
@@ -61,12 +60,13 @@ func (r *Reconciler) Reconcile(id controller.ID) (controller.Result, error) {
 		return controller.Result{}, err
 	}
 
-	// List the objects in the topo store
+	// List the CONTROLS relations of the target, whichever onos-config instance they leave: the master is
+	// elected among all live connections to the target
 	objects, err := r.topo.List(ctx, &topoapi.Filters{
 		RelationFilter: &topoapi.RelationFilter{
 			RelationKind: topoapi.CONTROLS,
 			Scope:        topoapi.RelationFilterScope_RELATIONS_ONLY,
-			SrcId:        string(utils.GetOnosConfigID()),
+			TargetId:     string(config.TargetID),
 		},
 	})
 	if err != nil {
